@@ -24,6 +24,7 @@ from vgi_rpc.external import (
 )
 from vgi_rpc.log import Level, Message
 from vgi_rpc.metadata import (
+    ERROR_KIND_KEY,
     LOG_EXTRA_KEY,
     LOG_LEVEL_KEY,
     LOG_MESSAGE_KEY,
@@ -635,7 +636,10 @@ def _dispatch_log_or_error(
     if level_str == Level.EXCEPTION.value:
         error_type = str(raw_extra_data.get("exception_type", level_str))
         traceback_str = str(raw_extra_data.get("traceback", ""))
-        raise RpcError(error_type, message_str, traceback_str, request_id=request_id)
+        # Stable error category of typed framework errors (docs/WIRE_PROTOCOL.md section 8).
+        error_kind_bytes = custom_metadata.get(ERROR_KIND_KEY)
+        error_kind = error_kind_bytes.decode(errors="replace") if error_kind_bytes is not None else None
+        raise RpcError(error_type, message_str, traceback_str, request_id=request_id, error_kind=error_kind)
 
     # Non-exception log message → invoke callback
     # Coerce all extra values to str for Message(**extra)
